@@ -94,6 +94,8 @@ var tmpls = []tmpl{
 	{"progv", "any", "(progv (list 'c8pv1 'c8pv2) (list %a %a) (list c8pv1 c8pv2))"},
 	{"defparameter", "any", "(progn (defparameter *c8-par* %a) *c8-par*)"},
 	{"defun", "any", "(progn (defun c8-helper (a) (list a %a)) (c8-helper %a))"},
+	{"defun", "any", "(progn (let ((base %i)) (defun c8-closure (k) (list k base %a))) (c8-closure %a))"},
+	{"defun", "any", "(let ((a %i)) (let* ((b (+ a 1))) (defun c8-closure2 () (list a b))) (list (c8-closure2) %a))"},
 	// iteration
 	{"dolist", "int", "(let ((acc 0)) (dolist (el (list %i %i %i) acc) (setq acc (+ acc (vtr %k el)))))"},
 	{"dotimes", "any", "(let ((acc nil)) (dotimes (i (length (list %a %a)) acc) (setq acc (cons (vtr %k i) acc))))"},
